@@ -733,11 +733,14 @@ func c19TransformCase(ctx *Ctx, v cty.Value, wlog []c19Visit) {
 		rule := c19Rule{at: encPath(tgt.p), act: "ret", val: repl}
 		res, outcome, _ := emit("post", nil, []c19Rule{rule})
 		tk := encPath(tgt.p)
-		ctx.Eval("trepl "+vw+" "+rule.enc(), len(tgt.p) > 0)
+		// d19: an evaluation counts as non-trivial only when the predicate below is really applied
+		ctx.Eval("trepl "+vw+" "+rule.enc(), len(tgt.p) > 0 && !hasSetStep(v, tgt.p) && repl.Type().Equals(tgt.v.Type()))
 		if hasSetStep(v, tgt.p) {
+			ctx.Tag("trepl:skipped-set-step")
 			continue
 		}
 		if !repl.Type().Equals(tgt.v.Type()) {
+			ctx.Tag("trepl:skipped-dynamic-slot")
 			// a dynamically typed member: the generator instantiated the placeholder,
 			// so this is not "a value of the member's own type" (the list/map/set
 			// around it may legitimately change its element type)
@@ -1012,9 +1015,11 @@ func c19ApplyCase(ctx *Ctx, v cty.Value, p cty.Path, tag string) {
 			exists = false
 			break
 		}
+		// d19: a step that names an existing member must apply; if the real step fails here
+		// the whole Apply fails too and the comparison below reports it (was: skipped)
 		var next cty.Value
 		if pn, _ := try(func() { next, _ = s.Apply(cur) }); pn || next == cty.NilVal {
-			decidable = false
+			ctx.Tag("apply:existing-step-failed")
 			break
 		}
 		cur = next
@@ -1160,6 +1165,7 @@ func runC19(ctx *Ctx) {
 			depth = 4
 		}
 		v := c19GenVal(ctx, depth)
+		d19ProbeOracle(ctx, v)
 		wlog := c19WalkCase(ctx, v)
 		c19TransformCase(ctx, v, wlog)
 		c19MarksCase(ctx, v)
@@ -1184,4 +1190,5 @@ func runC19(ctx *Ctx) {
 		c19RawEqCase(ctx, v, genVal(ctx.R, v.Type(), depth, c19ValOpts))
 	}
 	runC19PathSet(ctx)
+	runC19D19(ctx)
 }
